@@ -279,7 +279,14 @@ def pt3(ctx, R):
         # the second quote is consumed in the same block
         block = _enclosing_block(f, st)
         consumes = [c for s2 in block for c in ast.walk(s2) if isinstance(c, ast.Call) and call_name(c) == "next"]
-        R.check(len(consumes) == 1, "common._path_components::second quote consumed", f.where(st), "next(...) skips the second quote",
+        any_next = any(isinstance(c, ast.Call) and call_name(c) == "next" for c in ast.walk(f.node))
+        if not consumes and not any_next:
+            # a scanner that does not pull characters with next() at all (e.g. a state machine over a for loop): how it skips the
+            # second quote is not modelled
+            R.undecided("common._path_components::second quote consumed", f.where(st), "the scanner does not advance with next(); how the second quote "
+                        "of a doubled quote is skipped was not recognised")
+        else:
+            R.check(len(consumes) == 1, "common._path_components::second quote consumed", f.where(st), "next(...) skips the second quote",
                 "the second quote of a doubled quote is not consumed exactly once (%d next() calls in the branch): it would end the component" % len(consumes))
     key = "common._path_components::closing quote after the pair test"
     decided = False
